@@ -950,6 +950,57 @@ func (c *ctx) typeKeyed() {
 		}
 	}
 	c.s.OK("G18", "stratum B|no Go map keyed by types.Type", "", fmt.Sprintf("%d map-typed expressions examined", n))
+	// ... and no == / != between two types.Type values (or switch on one with types as cases): that is the
+	// same pointer comparison; types.Identical (or typeutil.Map) is the equality of the type graph. Comparison
+	// with nil and with the canonical universe/basic singletons (types.Typ[...], Universe lookups) is exact.
+	isTypeVal := func(info *types.Info, e ast.Expr) bool {
+		t := info.TypeOf(e)
+		return t != nil && types.Identical(t, typeI)
+	}
+	singleton := func(info *types.Info, e ast.Expr) bool {
+		e = astx.Unparen(e)
+		if astx.IsNil(info, e) {
+			return true
+		}
+		if ix, ok := e.(*ast.IndexExpr); ok {
+			if se, ok := ix.X.(*ast.SelectorExpr); ok && se.Sel.Name == "Typ" {
+				return true
+			}
+		}
+		if call, ok := e.(*ast.CallExpr); ok {
+			if se, ok := call.Fun.(*ast.SelectorExpr); ok && se.Sel.Name == "Type" {
+				if inner, ok := se.X.(*ast.CallExpr); ok {
+					if s2, ok := inner.Fun.(*ast.SelectorExpr); ok && s2.Sel.Name == "Lookup" {
+						return true // types.Universe.Lookup("error").Type()
+					}
+				}
+			}
+		}
+		return false
+	}
+	ncmp := 0
+	for _, fc := range c.files {
+		info := fc.pkg.TypesInfo
+		fc := fc
+		ast.Inspect(fc.file, func(nd ast.Node) bool {
+			be, ok := nd.(*ast.BinaryExpr)
+			if !ok || (be.Op != token.EQL && be.Op != token.NEQ) {
+				return true
+			}
+			if !isTypeVal(info, be.X) || !isTypeVal(info, be.Y) {
+				return true
+			}
+			ncmp++
+			k := fc.funcName(be) + "|" + astx.Short(be.X) + " " + be.Op.String() + " " + astx.Short(be.Y)
+			if singleton(info, be.X) || singleton(info, be.Y) {
+				c.s.OK("G18", k, c.pos(be), "comparison with nil or a canonical singleton type")
+			} else {
+				c.s.Bad("G18", k, c.pos(be), "two types.Type values are compared with "+be.Op.String()+": identical types written at two places (`*T` and `*T`, two `[]byte`) are different objects, so a duplicate or a match goes unnoticed; types.Identical is the equality of types")
+			}
+			return true
+		})
+	}
+	c.s.SetFact("lint.type_value_comparisons", ncmp)
 	for _, recv := range []string{"generator", "generatorv2"} {
 		for _, m := range []string{"typeID", "predID"} {
 			fc, fd := c.findFunc(c.inter.PkgPath, recv, m)
